@@ -28,6 +28,7 @@ type workloadOpts struct {
 	// Solo: run only this thread (isolation reference run); -1 = all.
 	Solo    int
 	UseSolo bool
+	ThreadSeed uint64 // isolation runs: seed of the per-thread private choice streams
 	ErrOnly bool // injected faults are errors only, no panics
 	Xattr   bool // include xattr sub-protocol requests
 }
@@ -48,6 +49,7 @@ type thread struct {
 	nops  int
 	done  bool
 	names []string
+	rng   *simrt.Tape // private choice stream (isolation runs), else nil
 }
 
 var wlNames = []string{"a", "b", "c", "d"}
@@ -62,6 +64,9 @@ func (t *thread) fid(i int) uint32 { return t.base + uint32(i) }
 // genOp draws the next request of a thread from the tape.
 func (t *thread) genOp(o workloadOpts) (rc.Message, func(rep rc.Message)) {
 	ch := simrt.Choose
+	if t.rng != nil {
+		ch = t.rng.Choose
+	}
 	i := ch(len(t.fids))
 	f := &t.fids[i]
 	fid := t.fid(i)
@@ -365,6 +370,9 @@ func runRandomWorkload(rcx *RunCtx, o workloadOpts) {
 			}
 			for ti := 0; ti < perConn; ti++ {
 				th := &thread{id: len(threads), conn: c, base: uint32(100 * (ti + 1)), nops: nops, names: wlNames}
+				if o.Disjoint {
+					th.rng = simrt.NewTape(o.ThreadSeed + uint64(th.id)*7919)
+				}
 				threads = append(threads, th)
 			}
 		}
